@@ -100,6 +100,38 @@ pub fn steps_snapshot() -> [u64; dnssector::verif::N_SITES] {
 }
 
 // ---------------------------------------------------------------------------
+// allocation monitor: bytes requested from the allocator by the calling thread
+
+pub struct CountingAlloc;
+
+thread_local! {
+    static ALLOC_BYTES: std::cell::Cell<u64> = const { std::cell::Cell::new(0) };
+}
+
+unsafe impl std::alloc::GlobalAlloc for CountingAlloc {
+    unsafe fn alloc(&self, layout: std::alloc::Layout) -> *mut u8 {
+        let _ = ALLOC_BYTES.try_with(|c| c.set(c.get().wrapping_add(layout.size() as u64)));
+        std::alloc::System.alloc(layout)
+    }
+    unsafe fn dealloc(&self, ptr: *mut u8, layout: std::alloc::Layout) {
+        std::alloc::System.dealloc(ptr, layout)
+    }
+    unsafe fn alloc_zeroed(&self, layout: std::alloc::Layout) -> *mut u8 {
+        let _ = ALLOC_BYTES.try_with(|c| c.set(c.get().wrapping_add(layout.size() as u64)));
+        std::alloc::System.alloc_zeroed(layout)
+    }
+    unsafe fn realloc(&self, ptr: *mut u8, layout: std::alloc::Layout, new_size: usize) -> *mut u8 {
+        let _ = ALLOC_BYTES.try_with(|c| c.set(c.get().wrapping_add(new_size as u64)));
+        std::alloc::System.realloc(ptr, layout, new_size)
+    }
+}
+
+/// Bytes requested by this thread so far (0 forever if the binary does not install `CountingAlloc`).
+pub fn allocated_bytes() -> u64 {
+    ALLOC_BYTES.try_with(|c| c.get()).unwrap_or(0)
+}
+
+// ---------------------------------------------------------------------------
 // current-case slot (mmap'd file): lets the driver attribute an abort
 
 pub struct Slot {
